@@ -26,17 +26,23 @@ func scores(args []string) {
 	path := fs.String("out", "", "output ndjson")
 	_ = fs.Parse(args)
 
+	// dom: the scores as the constructors make them; want: what each was constructed to be
 	var dom []eval.Score
+	var want []proj.Score
 	dom = append(dom, eval.NegInfScore, eval.InfScore)
+	want = append(want, proj.Score{T: "L"}, proj.Score{T: "W"})
 	for k := -127; k <= 127; k++ {
 		if k != 0 {
 			dom = append(dom, eval.MateInXScore(int8(k)))
+			want = append(want, proj.Score{T: "M", M: k})
 		}
 	}
 	fixed := []float32{0, float32(math.Copysign(0, -1)), 1, -1, 0.1, -0.1, math.MaxFloat32, -math.MaxFloat32,
-		math.SmallestNonzeroFloat32, -math.SmallestNonzeroFloat32, 103, -103, 0.001, -0.001}
+		math.SmallestNonzeroFloat32, -math.SmallestNonzeroFloat32, 103, -103, 0.001, -0.001,
+		float32(math.Inf(1)), float32(math.Inf(-1))} // an infinite evaluation is still a heuristic value
 	for _, f := range fixed {
 		dom = append(dom, eval.HeuristicScore(eval.Pawns(f)))
+		want = append(want, proj.Score{T: "H", V: proj.PawnsKey(eval.Pawns(f))})
 	}
 	r := rand.New(rand.NewSource(*seed))
 	for i := 0; i < *nrand; i++ {
@@ -53,6 +59,7 @@ func scores(args []string) {
 			f = 0.5
 		}
 		dom = append(dom, eval.HeuristicScore(eval.Pawns(f)))
+		want = append(want, proj.Score{T: "H", V: proj.PawnsKey(eval.Pawns(f))})
 	}
 
 	incDom := func(s eval.Score) bool { // IncrementMateDistance is defined below the int8 limit
@@ -80,7 +87,7 @@ func scores(args []string) {
 		if d, ok := a.MateDistance(); ok {
 			md = int(d)
 		}
-		w.Emit(out.M{"op": "row", "a": proj.ScoreOf(a), "neg": proj.ScoreOf(a.Negate()),
+		w.Emit(out.M{"op": "row", "a": proj.ScoreOf(a), "want": want[i], "heur": proj.B2I(a.IsHeuristic()), "neg": proj.ScoreOf(a.Negate()),
 			"inc": proj.ScoreOf(eval.IncrementMateDistance(a)), "incdom": proj.B2I(incDom(a)), "md": md,
 			"dec": proj.ScoreOf(eval.DecrementMateDistance(a)), "incdec": proj.ScoreOf(eval.DecrementMateDistance(eval.IncrementMateDistance(a))),
 			"bs": bs, "less": less, "greater": greater, "max": maxs, "min": mins,
